@@ -69,6 +69,14 @@ func drawUnit(t *rapid.T, name string, avoid map[string]bool) *Unit {
 		msgs = append(msgs, mm)
 		refs = append(refs, M(mm.Full()))
 	}
+	// nested enums inside some messages (order of the generated type tables)
+	for i, mm := range msgs {
+		if rapid.IntRange(0, 2).Draw(t, "nestedenum") == 0 {
+			en := fmt.Sprintf("NE%d", i)
+			mm.Enum(en, strings.ToUpper(en)+"_"+fmt.Sprint(i)+"_ZERO", 0, strings.ToUpper(en)+"_"+fmt.Sprint(i)+"_ONE", rapid.IntRange(1, 9).Draw(t, "nev"))
+			enums = append(enums, E(mm.Full()+"."+en))
+		}
+	}
 	// well-known types now and then
 	wkt := []string{"google.protobuf.Timestamp", "google.protobuf.Any", "google.protobuf.Duration"}
 	usedWKT := map[string]bool{}
